@@ -43,7 +43,7 @@ SIG_SENS = 'c11-zero-sensitivity-nan'
 SIG_SPEC = 'c11-spectrum-shape-subset'
 SIG_ABS = 'c11-absolute-threshold'
 SIG_CANCEL = 'c11-near-threshold-cancellation'
-SIG_NTB = 'c11-nontraceless-basis-sensitivity'
+SIG_NTB = 'c11-identity-component-sensitivity'
 
 
 # ------------------------------------------------------------------------------------------ inputs
@@ -216,26 +216,30 @@ def fd4(f, h):
 
 
 def fd_reference(res, want_infid, rel_step=1e-4):
-    """4th-order central differences of the implementation's own filter function (and infidelity)"""
+    """4th-order central differences of the implementation's own filter function (and infidelity);
+    also returns the largest filter function value met on the stencils (scale of the rounding noise)"""
     p, om, n_idx, c_idx, ncd, S = res['p'], res['om'], res['n_idx'], res['c_idx'], res['ncd'], res['S']
     G = len(p.dt)
     FD = np.zeros((len(n_idx), G, len(c_idx), len(om)))
     IFD = np.zeros((len(n_idx), G, len(c_idx))) if want_infid else None
     dtm = p.dt.mean()
+    seen = [0.0]
     for g in range(G):
         for hh, h_full in enumerate(c_idx):
             step = rel_step / (max(p.dt[g], dtm) * max(1.0, np.linalg.norm(p.c_opers[h_full], 2)))
 
             def F(delta):
                 q = perturbed(p, h_full, g, delta, n_idx, ncd, hh)
-                return np.einsum('aao->ao', q.get_filter_function(om)).real[n_idx]
+                v = np.einsum('aao->ao', q.get_filter_function(om)).real[n_idx]
+                seen[0] = max(seen[0], float(np.abs(v).max()))
+                return v
             FD[:, g, hh, :] = fd4(F, step)
             if want_infid:
                 def I(delta):
                     q = perturbed(p, h_full, g, delta, n_idx, ncd, hh)
                     return np.asarray(ff.infidelity(q, S, om, n_oper_identifiers=res['nid']))
                 IFD[:, g, hh] = fd4(I, step)
-    return FD, IFD
+    return FD, IFD, seen[0]
 
 
 def fd_error(D, refs):
@@ -256,19 +260,16 @@ def input_classes(res):
     tr = lambda A: abs(np.trace(A)) > 1e-12 * max(1.0, np.abs(A).max())
     d2 = d == 2 and (any(tr(p.c_opers[h]) for h in c_idx) or any(tr(p.n_opers[a]) for a in n_idx))
     zs = res['ncd'] is not None and bool((p.n_coeffs[n_idx] == 0).any())
-    ntb = res['ncd'] is not None and not p.basis.istraceless and any(tr(p.n_opers[a]) for a in n_idx)
-    absthr = cancel = False
+    ntb = res['ncd'] is not None and any(tr(p.n_opers[a]) for a in n_idx)
+    cancel = False
     for g in range(G):
         dE = np.subtract.outer(ev[g], ev[g])
         EdE = np.add.outer(om, dE)
-        for x in (dE.ravel(), EdE.ravel(), np.add.outer(EdE, dE[np.abs(dE) >= THR]).ravel()):
-            ax = np.abs(x)
-            if ((ax < THR) & (ax * p.dt[g] > 1e-6)).any():
-                absthr = True
-            if ((ax >= THR) & (ax * p.dt[g] < 1e-4)).any():
+        for x in (dE.ravel(), EdE.ravel(), np.add.outer(EdE, dE[np.abs(dE * p.dt[g]) >= THR]).ravel()):
+            ax = np.abs(x * p.dt[g])
+            if ((ax >= THR) & (ax < 1e-4)).any():
                 cancel = True
-    return dict(degenerate=deg, d2_nontraceless=d2, zero_sens=zs, abs_threshold=absthr, cancellation=cancel,
-                nontraceless_basis_sens=ntb)
+    return dict(degenerate=deg, d2_nontraceless=d2, zero_sens=zs, cancellation=cancel, identity_sens=ntb)
 
 
 def predicates(inp, res=None, full=True):
@@ -284,7 +285,7 @@ def predicates(inp, res=None, full=True):
         return bad, cls
     finite = bool(np.isfinite(D).all()) and (res['ID'] is None or bool(np.isfinite(res['ID']).all()))
     if not finite:
-        sig = SIG_DEG if cls['degenerate'] else SIG_SENS if cls['zero_sens'] else 'c11-nonfinite'
+        sig = SIG_SENS if cls['zero_sens'] else SIG_DEG if cls['degenerate'] else 'c11-nonfinite'
         bad.append(('finite', sig, 'NaN/inf in the derivative (degenerate segment: %s, zero sensitivity with '
                     'n_coeffs_deriv: %s)' % (cls['degenerate'], cls['zero_sens'])))
     # spectrum shapes: accepted by infidelity for the selected operators => accepted by infidelity_derivative
@@ -302,12 +303,11 @@ def predicates(inp, res=None, full=True):
     if not finite:
         return bad, cls
     # finite differences of the implementation's own filter function / infidelity
-    FD, IFD = fd_reference(res, want_infid and full, 1e-4)
-    FDb, IFDb = fd_reference(res, want_infid and full, 2e-3)
-    Fmax = np.abs(np.einsum('aao->ao', p.get_filter_function(om)).real[res['n_idx']]).max()
+    FD, IFD, Fs1 = fd_reference(res, want_infid and full, 1e-4)
+    FDb, IFDb, Fs2 = fd_reference(res, want_infid and full, 2e-3)
+    Fmax = max(np.abs(np.einsum('aao->ao', p.get_filter_function(om)).real[res['n_idx']]).max(), Fs1, Fs2)
     floor = 1e-9 * Fmax * p.dt.max() * max(1.0, max(np.linalg.norm(p.c_opers[h], 2) for h in res['c_idx']))
-    sig = (SIG_D2 if cls['d2_nontraceless'] else SIG_ABS if cls['abs_threshold'] else
-           SIG_CANCEL if cls['cancellation'] else 'c11-fd-mismatch')
+    sig = SIG_CANCEL if cls['cancellation'] else 'c11-fd-mismatch'
     err, scale = fd_error(D, (FD, FDb))
     if err > FD_TOL * scale + floor:
         bad.append(('ff-derivative', sig, 'filter function derivative differs from finite differences: max abs err '
@@ -317,8 +317,8 @@ def predicates(inp, res=None, full=True):
         ifloor = floor * np.abs(S2).max() * (om.max() - om.min()) / (2 * np.pi * p.d)
         ierr, iscale = fd_error(res['ID'], (IFD, IFDb))
         if ierr > FD_TOL * iscale + ifloor:
-            if sig == 'c11-fd-mismatch' and cls['nontraceless_basis_sens'] and not any(b[0] == 'ff-derivative' for b in bad):
-                sig = SIG_NTB      # the filter function derivative is right, infidelity() uses the trace-tensor form
+            if sig == 'c11-fd-mismatch' and cls['identity_sens'] and not any(b[0] == 'ff-derivative' for b in bad):
+                sig = SIG_NTB      # the filter function derivative is right; infidelity() removes the identity component
             bad.append(('infidelity-derivative', sig, 'infidelity derivative differs from finite differences of '
                         'infidelity(): max abs err %.3g, largest entry %.3g' % (ierr, iscale)))
     # identifier selection = slice of the full derivative
@@ -338,6 +338,7 @@ HDR = ("From Coq Require Import ZArith List String.\n"
        "Corr.Agree Corr.Obs Corr.ObsC11.\n"
        "Import ListNotations.\nLocal Open Scope string_scope.\n")
 TH3 = "(dy O di_thr_dE, dy O di_thr_EdE, dy O di_thr_EdEdE)"
+THA = "(dy O ld_thr)"
 
 
 def natlist(v):
@@ -374,7 +375,7 @@ def coq_full_case(name, inp, res, big):
             f"  let cs := rmats O {carr_lit(p.c_opers)}%Z in\n"
             f"  let ncd := map (rvecs O) {ncdl}%Z in\n"
             f"  let spec := rvecs O {rarr_lit(S2)}%Z in\n"
-            f"  let R := model_all O {p.d} (dy O foi_thr) {TH3} ev Vs om bs ns cs nc dts "
+            f"  let R := model_all O {p.d} (dy O foi_thr) {TH3} {THA} ev Vs om bs ns cs nc dts "
             f"{natlist(n_idx)} {natlist(c_idx)} {use} ncd spec in\n  {expr}.\n")
 
 
@@ -387,12 +388,12 @@ def di_run(E, ev, dt):
 
 
 def di_xmin(E, ev, dt):
-    """smallest unmasked |x| among dE, EdE, EdEdE (inf if none is below 1e-4/dt): the cancellation class"""
+    """smallest unmasked |x*dt| among dE, EdE, EdEdE (inf if none is below 1e-4): the cancellation class"""
     dE = np.subtract.outer(ev, ev)
     EdE = np.add.outer(E, dE)
-    EdEdE = np.add.outer(EdE, dE[np.abs(dE) >= THR])
-    xs = np.abs(np.concatenate([dE.ravel(), EdE.ravel(), EdEdE.ravel()]))
-    xs = xs[(xs >= THR) & (xs * dt < 1e-4)]
+    EdEdE = np.add.outer(EdE, dE[np.abs(dE * dt) >= THR])
+    xs = np.abs(np.concatenate([dE.ravel(), EdE.ravel(), EdEdE.ravel()]) * dt)
+    xs = xs[(xs >= THR) & (xs < 1e-4)]
     return float(xs.min()) if xs.size else np.inf
 
 
@@ -404,7 +405,7 @@ def coq_di_case(name, E, ev, dt, big, loose=False):
         return None
     tol = REL_TOL * max(np.abs(out).max(), 1e-300)
     if loose:       # rounding-error bound of the cancelling formulas: a few ulp of 1 divided by x^2
-        tol += 2e-15 / di_xmin(E, ev, dt) ** 2
+        tol += 2e-15 * dt ** 2 / di_xmin(E, ev, dt) ** 2
     return (f"Definition {name} : N*N*N :=\n  let O := {O} in\n"
             f"  tallyC O {emit.tol_lit(tol, big)} {carr_lit(out.reshape(-1))}%Z\n"
             f"    (model_di O {d} {TH3} (rvec O {rvec_lit(E)}%Z) (rvec O {rvec_lit(ev)}%Z) (dy O {dylit(dt)}%Z)).\n")
@@ -422,17 +423,17 @@ def di_inputs(r, n):
         ev = np.sort(r.standard_normal(d))
         kind = str(r.choice(['generic', 'degenerate', 'near-degenerate', 'idle']))
         deltas = near if i % 4 == 3 else safe
+        dt = float(r.uniform(0.3, 1.5)) * float(r.choice([1.0, 1.0, 1e3, 1e-3]))     # the masks are dimensionless
         if kind == 'degenerate':
             ev[1] = ev[0]
         elif kind == 'near-degenerate':
-            ev[1] = ev[0] + abs(float(r.choice(deltas[1:])))
+            ev[1] = ev[0] + abs(float(r.choice(deltas[1:]))) / dt
         elif kind == 'idle':
             ev[:] = 0.0
-        dt = float(r.uniform(0.3, 1.5))
         E = [0.0, float(r.uniform(-3, 3))]
         m, k = int(r.integers(0, d)), int(r.integers(0, d))
-        E.append(-(ev[m] - ev[k]) + float(r.choice(deltas)))                      # x = EdE near 0
-        E.append(-(ev[m] - ev[k]) - (ev[0] - ev[d - 1]) + float(r.choice(deltas)))   # y = EdEdE near 0
+        E.append(-(ev[m] - ev[k]) + float(r.choice(deltas)) / dt)                      # x = EdE near 0
+        E.append(-(ev[m] - ev[k]) - (ev[0] - ev[d - 1]) + float(r.choice(deltas)) / dt)   # y = EdEdE near 0
         E = np.array(E)
         out.append((E, ev, dt, kind + ('/near' if np.isfinite(di_xmin(E, ev, dt)) else '')))
     return out
@@ -454,7 +455,7 @@ def bookkeeping_defs(cases):
         except ValueError:
             acc_i = False
         try:
-            util.parse_spectrum(res['S'], res['om'], range(len(p.n_opers)))
+            util.parse_spectrum(res['S'], res['om'], res['n_idx'])
             acc_d = True
         except ValueError:
             acc_d = False
@@ -657,8 +658,10 @@ def search(ctx, broken):
     known = {e['signature'] for e in known_findings(ID)}
     r = ctx.rng(1199)
     out = []
-    # stay away from the input classes of the known findings so that a new failure is attributed correctly
-    forces = [dict(ctl='traceless', noise='traceless', amp='generic', sens='generic'),
+    # mostly away from the input classes of the known findings so that a new failure is attributed correctly
+    forces = [dict(ctl='nontraceless', noise='nontraceless', amp='generic', sens='generic', ncd=False), dict(amp='idle', sens='generic', ncd=False),
+              dict(amp='scaled', sens='generic', ncd=False), dict(seln='subset', nn=3, spec='2d', sens='generic', ncd=False),
+              dict(ctl='traceless', noise='traceless', amp='generic', sens='generic'),
               dict(ctl='traceless', noise='traceless', amp='repeated', sens='constant'),
               dict(d=3, amp='generic', sens='generic'), dict(d=4, amp='generic', sens='generic', ncd=True),
               dict(d=3, amp='degenerate-rot', sens='generic'), dict(d=3, amp='tiny', sens='generic'),
